@@ -196,10 +196,10 @@ EXTRA_TEXT = {
     'C19': " Shortened interleaved middle segments and twin files are included.",
     'C06': " A sample of cuts is also read by path beside the complete index file.",
     'C02': " Truncated equivalence (same raw bytes missing at the end) between compressed and explicit encodings is asserted too.",
-    'C01': " Also read in compressed physical encodings (inherited indexes, metadata-less segments after header-only segments).",
+    'C01': " Also read in compressed physical encodings (inherited indexes, metadata-less segments after header-only segments). Wide files (hundreds of channels) are included.",
     'C03': " A differential job (no content model) covers files in which a non-final segment ends in an incomplete chunk. Late inspection of file chunks, chunk object interfaces, pathlib paths and cut-file-beside-its-index are included.",
-    'C04': " Integer indices are followed by windows and slices around the element just read.",
-    'C05': " Results are also compared in representation (container, dtype, shape) with a freshly opened file, and arrays returned earlier must not change.",
+    'C04': " Integer indices are followed by windows and slices around the element just read. Files of 2-12 GiB that exist only as a formula exercise 64-bit offset arithmetic.",
+    'C05': " Results are also compared in representation (container, dtype, shape) with a freshly opened file, and arrays returned earlier must not change. Model-free jobs compare each operation with a freshly opened file and re-read delivered chunk objects.",
     'C07': " Programs are also read lazily (both channel orders, one window per write); long arrays at power-of-two lengths, 100-140-segment programs, overwritten files and re-entered writers are generated.",
     'C08': " Long arrays at power-of-two lengths, overwritten files and re-entered writers are generated.",
     'C09': " Short non-final segments and re-entered writers are generated.",
@@ -212,7 +212,7 @@ EXTRA_TEXT = {
     'C16': " Channels re-written in the opposite order are read lazily from every offset.",
     'C17': " Sensor scales fed by other scales (input source 0 / 1) are included. Float32 voltages and repeated evaluation are included.",
     'C18': " Thermocouple scales fed by other scales and arrays mixing valid with NaN / inf / out-of-range samples are included. Long arrays at power-of-two lengths and held results are included.",
-    'C20': " Unbuffered caller streams and the index file given as the path are included. The TdmsFile constructor's argument combinations are included.",
+    'C20': " Unbuffered caller streams and the index file given as the path are included. The TdmsFile constructor's argument combinations are included. A large-chunk job (up to 2 MiB chunks) is included.",
 }
 
 
